@@ -490,6 +490,56 @@ func edits(full bool) (states, transitions int, cands []candidate) {
 		}
 		wg.Wait()
 	}
+	// 1a. fsnotify.Op is a bit mask: back ends that coalesce events (kqueue) and editors that replace the file report an
+	// ordinary save as WRITE|CHMOD, CREATE|WRITE or CREATE|WRITE|CHMOD. What the handler answers for an edit, and the
+	// text file it leaves, must not depend on which of these masks announces the save (differential: the same edit
+	// announced by a plain WRITE, step 1).
+	maskedEvents := 0
+	{
+		masks := []fsnotify.Op{fsnotify.Create, fsnotify.Write | fsnotify.Chmod, fsnotify.Create | fsnotify.Chmod, fsnotify.Create | fsnotify.Write, fsnotify.Create | fsnotify.Write | fsnotify.Chmod}
+		var mu sync.Mutex
+		var wg sync.WaitGroup
+		for g := 0; g < workers; g++ {
+			g := g
+			wg.Add(1)
+			go func() {
+				defer wg.Done()
+				d := wdir(g)
+				file := filepath.Join(d, "t.templ")
+				txt := templruntime.GetDevModeTextFileName(file)
+				for i := g; i < len(all); i += workers {
+					if !full && i%4 != 0 {
+						continue // quick: every fourth version with all its edits
+					}
+					a := all[i]
+					for _, b := range neighbours(a) {
+						s := newSession(d)
+						step(s, a)
+						step(s, b)
+						wantTxt, _ := os.ReadFile(txt)
+						for _, m := range masks {
+							s := newSession(d)
+							step(s, a)
+							clockMu.Lock()
+							writeAt(file, b.src())
+							clockMu.Unlock()
+							res, err := s.h.HandleEvent(context.Background(), fsnotify.Event{Name: file, Op: m})
+							transitionsA.Add(1)
+							got, _ := os.ReadFile(txt)
+							mu.Lock()
+							maskedEvents++
+							if err != nil || res.GoUpdated != dec[[2]params{a, b}] || string(got) != string(wantTxt) {
+								run.Violation("event-mask", fmt.Sprintf("%s → %s announced by the event %s: GoUpdated=%v TextUpdated=%v err=%v, the text file %s the new version's; announced by WRITE: GoUpdated=%v", a, b, m, res.GoUpdated, res.TextUpdated, err, map[bool]string{true: "is", false: "is NOT"}[string(got) == string(wantTxt)], dec[[2]params{a, b}]), map[string]any{"first": a.src(), "second": b.src(), "event": m.String()})
+							}
+							mu.Unlock()
+						}
+					}
+				}
+			}()
+		}
+		wg.Wait()
+		run.Cov["edits_announced_by_other_event_masks"] = maskedEvents
+	}
 	// 1b. a save that arrives WHILE the previous one is being handled: the handler is writing the generated code of
 	// version A when the file is saved again as version B (later modification time); the event for B follows. It must be
 	// handled as B after A: same decision as in step 1, and the text file must be B's.
